@@ -1913,6 +1913,32 @@ func (m *repoManager) merge(parents []dvid.UUID, note string, mt MergeType) (dvi
 	}
 	m.repoMutex.RUnlock()
 
+	// Check all parents before the child node is created so that a refused
+	// merge leaves the DAG untouched.  A committed node never reopens, so the
+	// checks still hold when the links are made below.
+	parentVs := make([]dvid.VersionID, len(parents))
+	parentNodes := make([]*nodeT, len(parents))
+	for i, parent := range parents {
+		v, err := m.versionFromUUID(parent)
+		if err != nil {
+			return dvid.NilUUID, err
+		}
+		r.RLock()
+		node, found := r.dag.nodes[v]
+		r.RUnlock()
+		if !found {
+			return dvid.NilUUID, ErrInvalidVersion
+		}
+		node.RLock()
+		locked := node.locked
+		node.RUnlock()
+		if !locked {
+			return dvid.NilUUID, ErrBranchUnlockedNode
+		}
+		parentVs[i] = v
+		parentNodes[i] = node
+	}
+
 	// Add the child node.  Since it's new and unavailable, no need to lock it.
 	childUUID, childV, err := m.newUUID(nil)
 	if err != nil {
@@ -1930,26 +1956,9 @@ func (m *repoManager) merge(parents []dvid.UUID, note string, mt MergeType) (dvi
 	r.Unlock()
 
 	// Set up pointers with parents
-	for _, parent := range parents {
-		v, err := m.versionFromUUID(parent)
-		if err != nil {
-			return dvid.NilUUID, err
-		}
-		r.RLock()
-		node, found := r.dag.nodes[v]
-		r.RUnlock()
-		if !found {
-			return dvid.NilUUID, ErrInvalidVersion
-		}
-
+	for i, node := range parentNodes {
 		node.Lock()
-		if !node.locked {
-			node.Unlock()
-			return dvid.NilUUID, ErrBranchUnlockedNode
-		}
-
-		// Add this parent node
-		child.parents = append(child.parents, v)
+		child.parents = append(child.parents, parentVs[i])
 		node.children = append(node.children, childV)
 		node.updated = time.Now()
 		node.Unlock()
